@@ -18,6 +18,8 @@
 //         | 'D' hex ';' bit                   class:name={bool}
 //         | 'U' hex ';' bit                   class=("name", bool)
 //         | 'K' d hex ';' hex ';'             style:name="v" / style:name={v}
+//         | 'L' hex ';' bit                   name=true / name=false        (boolean LITERAL: no hole)
+//         | 'N' hex ';' hex ';'               name=2 / name=1.5 / name='c'   (int / float / char LITERAL; 2nd = source text)
 // hex = lower-case hex of the UTF-8 bytes (may be empty); d, bit = '0' | '1'; tag = [a-z0-9-]+.
 
 #[derive(Clone, Debug, PartialEq)]
@@ -30,6 +32,18 @@ pub enum TAttr {
     ClsToggle(String, bool),
     ClsTuple(String, bool),
     StyleKV(bool, String, String),
+    /// `name=true` / `name=false`: a literal, but not a string literal (never static for the macro)
+    LitBool(String, bool),
+    /// `name=2`, `name=1.5`, `name='c'`: the source text of an int / float / char literal
+    LitVal(String, String),
+}
+
+/// what a non-string literal renders as (`to_string()` of the value)
+pub fn lit_rendered(src: &str) -> String {
+    match src.strip_prefix('\'').and_then(|r| r.strip_suffix('\'')) {
+        Some(c) => c.to_string(),
+        None => src.to_string(),
+    }
 }
 
 #[derive(Clone, Debug, PartialEq)]
@@ -83,6 +97,8 @@ fn enc(nodes: &[Tmpl], o: &mut String) {
                         TAttr::ClsToggle(n, b) => o.push_str(&format!("D{};{}", hx(n), *b as u8)),
                         TAttr::ClsTuple(n, b) => o.push_str(&format!("U{};{}", hx(n), *b as u8)),
                         TAttr::StyleKV(d, n, v) => o.push_str(&format!("K{}{};{};", *d as u8, hx(n), hx(v))),
+                        TAttr::LitBool(n, b) => o.push_str(&format!("L{};{}", hx(n), *b as u8)),
+                        TAttr::LitVal(n, v) => o.push_str(&format!("N{};{};", hx(n), hx(v))),
                     }
                 }
                 o.push('>');
@@ -190,6 +206,8 @@ impl<'a> Dec<'a> {
                             b'D' => TAttr::ClsToggle(self.hex()?, self.bit()?),
                             b'U' => TAttr::ClsTuple(self.hex()?, self.bit()?),
                             b'K' => TAttr::StyleKV(self.bit()?, self.hex()?, self.hex()?),
+                            b'L' => TAttr::LitBool(self.hex()?, self.bit()?),
+                            b'N' => TAttr::LitVal(self.hex()?, self.hex()?),
                             _ => return None,
                         });
                     }
@@ -250,7 +268,8 @@ fn walk_holes(nodes: &mut [Tmpl], raw: bool, f: &mut dyn FnMut(HoleKind, &mut St
                         _ => {}
                     }
                 }
-                let r = is_raw_tag(tag);
+                // the text of <textarea> is escaped (and read back through character references): any string goes
+                let r = is_raw_tag(tag) && tag != "textarea";
                 walk_holes(kids, r, f, g);
             }
             Tmpl::Frag(kids) => walk_holes(kids, raw, f, g),
@@ -334,6 +353,8 @@ pub fn dynamize(nodes: &[Tmpl]) -> Vec<Tmpl> {
                         TAttr::Cls(_, v) => TAttr::Cls(true, v.clone()),
                         TAttr::Style(_, v) => TAttr::Style(true, v.clone()),
                         TAttr::StyleKV(_, n, v) => TAttr::StyleKV(true, n.clone(), v.clone()),
+                        TAttr::LitBool(n, b) => TAttr::BoolDyn(n.clone(), *b),
+                        TAttr::LitVal(n, v) => TAttr::Plain(true, n.clone(), lit_rendered(v)),
                         a => a.clone(),
                     })
                     .collect(),
@@ -415,6 +436,12 @@ pub fn add_extra(nodes: &[Tmpl], site: Option<usize>, value: &str) -> Vec<Tmpl> 
 
 // ---------------------------------------------------------------- Rust source of a template
 
+/// childless non-void elements are written `<tag …/>` in about half of the places (a fixed function of the
+/// element, so that the source is reproducible): the self-closing syntax must mean the same as `<tag …></tag>`
+pub fn self_closed_syntax(tag: &str, attrs: &[TAttr], kids: &[Tmpl]) -> bool {
+    kids.is_empty() && !VOID.contains(&tag) && (tag.len() + attrs.len()) % 2 == 1
+}
+
 fn unquotable(s: &str) -> bool {
     // words of ASCII letters/digits separated by single spaces: rstml's raw text keeps exactly that
     !s.is_empty()
@@ -494,9 +521,11 @@ impl Src {
                                 let h = self.s();
                                 self.o.push_str(&format!("style:{}={}", n, h));
                             }
+                            TAttr::LitBool(n, b) => self.o.push_str(&format!("{}={}", n, b)),
+                            TAttr::LitVal(n, v) => self.o.push_str(&format!("{}={}", n, v)),
                         }
                     }
-                    if VOID.contains(&tag.as_str()) {
+                    if VOID.contains(&tag.as_str()) || self_closed_syntax(tag, attrs, kids) {
                         self.o.push_str("/>");
                     } else {
                         self.o.push('>');
@@ -572,11 +601,15 @@ pub const MATH_LEAF: &[&str] = &["mi", "mo", "mn"];
 pub fn is_foreign(t: &str) -> bool {
     SVG_ALL.contains(&t) || MATH_ALL.contains(&t)
 }
+/// tags the oracle's parser does not know: read as custom elements `x-<tag>`
+pub fn parse_renamed(t: &str) -> bool {
+    is_foreign(t) || t == "pre"
+}
 
 const TEXTS: &[&str] = &[
     "a", "hello world", "t<&>\"'", "</div>", "<!--", "&amp;", " ", "  x  ", "日本", "é", "a\nb", "<script>",
     "]]>", "<b>bold</b>", "x=1", "&lt", "<!>", "-->", "q", "Zz", "\u{a0}", "1 < 2 && 3 > 2", "it's", "`",
-    "<img src=x onerror=alert(1)>", "&#x3c;", "tab\there", "😀",
+    "<img src=x onerror=alert(1)>", "&#x3c;", "tab\there", "😀", "  ", "\t", " \n ", "\u{a0}\u{a0}", " \u{a0} ", "\n\n",
 ];
 const UNQUOTED: &[&str] = &["plain", "two words", "Hello there World", "x"];
 const ATTR_VALS: &[&str] = &[
@@ -653,7 +686,13 @@ impl Gen {
         let n = self.r.below(max + 1);
         for _ in 0..n {
             let dynv = mode == Mode::Mixed && self.r.chance(1, 2);
-            let form = self.r.below(if mode == Mode::Static { 5 } else { 11 });
+            // forms 11, 12: non-string literals (hole-free, but never static for the macro)
+            let form = if mode == Mode::Static {
+                let f = self.r.below(7);
+                if f >= 5 { f + 6 } else { f }
+            } else {
+                self.r.below(13)
+            };
             let a = match form {
                 0 | 1 => {
                     let mut nm = self.r.pick(names).to_string();
@@ -699,6 +738,22 @@ impl Gen {
                 }
                 6 | 7 => TAttr::ClsToggle(self.r.pick(TOGGLES).to_string(), self.r.chance(2, 3)),
                 8 => TAttr::ClsTuple(self.r.pick(TUPLES).to_string(), self.r.chance(2, 3)),
+                11 => {
+                    let nm = if math {
+                        "data-h"
+                    } else if svg || custom {
+                        "foo4"
+                    } else if matches!(tag, "input" | "button") && self.r.chance(1, 2) {
+                        "disabled"
+                    } else {
+                        ["hidden", "inert", "autofocus"][self.r.below(3)]
+                    };
+                    TAttr::LitBool(nm.to_string(), self.r.chance(1, 2))
+                }
+                12 => {
+                    let nm = if self.r.chance(1, 3) && !svg && !custom { "tabindex" } else { self.r.pick(names) };
+                    TAttr::LitVal(nm.to_string(), self.r.pick(&["2", "10", "0", "1.5", "0.25", "'c'", "'<'", "'\"'", "-3"]).to_string())
+                }
                 _ => TAttr::StyleKV(
                     self.r.chance(1, 2),
                     self.r.pick(STYLE_KEYS).to_string(),
@@ -712,6 +767,7 @@ impl Gen {
                 TAttr::ClsToggle(n, _) => format!("class:{n}"),
                 TAttr::ClsTuple(n, _) => format!("class=({n})"),
                 TAttr::StyleKV(_, n, _) => format!("style:{n}"),
+                TAttr::LitBool(n, _) | TAttr::LitVal(n, _) => n.clone(),
             };
             if used.contains(&key) {
                 continue;
@@ -841,13 +897,11 @@ impl Gen {
                 let a = self.attrs("hr", mode, 2);
                 Tmpl::Elem("hr".into(), a, vec![])
             }
-            _ => {
-                if self.r.chance(1, 3) {
-                    self.noscript_elems(depth, mode)
-                } else {
-                    self.raw(mode)
-                }
-            }
+            _ => match self.r.below(4) {
+                0 => self.noscript_elems(depth, mode),
+                1 => self.pre(d, mode),
+                _ => self.raw(mode),
+            },
         }
     }
 
@@ -885,6 +939,15 @@ impl Gen {
         Tmpl::Elem("svg".into(), a, inner)
     }
 
+    /// `<pre>`: white space is content; first child never starts with a line feed (the parser drops that one,
+    /// which the oracle — it reads `<pre>` as a custom element — does not model)
+    fn pre(&mut self, depth: usize, mode: Mode) -> Tmpl {
+        let a = self.attrs("pre", mode, 2);
+        let mut k = vec![Tmpl::Text(self.r.pick(&["  ", "\t", " x\n\n  y ", "\u{a0}", "    indented\n"]).to_string(), false)];
+        k.extend(self.kids(depth, true, false, mode, 3));
+        Tmpl::Elem("pre".into(), a, k)
+    }
+
     /// `<noscript>` with element children (the only non-escaping element that may contain markup): the text of
     /// the elements below it must be escaped exactly as elsewhere, on the static and on the builder path
     fn noscript_elems(&mut self, depth: usize, mode: Mode) -> Tmpl {
@@ -908,7 +971,7 @@ impl Gen {
         let k = match self.r.below(4) {
             0 => vec![],
             _ => {
-                let s = if tag == "title" { self.r.pick(TEXTS) } else { self.r.pick(RAW_TEXTS) };
+                let s = if tag == "title" || tag == "textarea" { self.r.pick(TEXTS) } else { self.r.pick(RAW_TEXTS) };
                 if mode == Mode::Mixed && self.r.chance(1, 2) {
                     vec![Tmpl::Block(String::new())]
                 } else {
@@ -933,10 +996,10 @@ fn shape_of(roots: Vec<Tmpl>, r: &mut Sm) -> Shape {
     Shape { roots, site }
 }
 
-/// `HX_C18_N` shapes: a systematic part (every attribute form alone and in pairs on an inner element,
+/// the systematic part (every attribute form alone and in pairs on an inner element,
 /// every tag of the family as an inner static element, the shapes of the known finding classes), then
 /// pseudo-random templates of depth ≤ 3 from the grammar above.
-pub fn shapes(n: usize) -> Vec<Shape> {
+pub fn shapes(n_random: usize) -> Vec<Shape> {
     let mut g = Gen { r: Sm(0xC18) };
     let mut out: Vec<Shape> = vec![];
     let forms: Vec<TAttr> = vec![
@@ -972,6 +1035,7 @@ pub fn shapes(n: usize) -> Vec<Shape> {
                 TAttr::ClsToggle(n, _) => format!("class:{n}"),
                 TAttr::ClsTuple(n, _) => format!("class=({n})"),
                 TAttr::StyleKV(_, n, _) => format!("style:{n}"),
+                TAttr::LitBool(n, _) | TAttr::LitVal(n, _) => n.clone(),
             };
             if key(&forms[i]) == key(&forms[j]) {
                 continue;
@@ -1084,8 +1148,18 @@ pub fn shapes(n: usize) -> Vec<Shape> {
     out.push(shape_of(vec![el("div", vec![], vec![el("x-foo", vec![TAttr::Plain(true, "data-k".into(), String::new())], vec![tx("inside")]), el("p", vec![], vec![tx("after")])])], &mut g.r));
     out.push(shape_of(vec![el("my-el2", vec![], vec![tx("count: "), Tmpl::Block(String::new())]), el("p", vec![], vec![tx("after")])], &mut g.r));
     out.push(shape_of(vec![el("div", vec![], vec![el("x-foo", vec![TAttr::Plain(false, "foo".into(), "s".into())], vec![el("my-el2", vec![TAttr::ClsToggle("on".into(), true)], vec![tx("deep")])]), tx("after")])], &mut g.r));
-    // 6. pseudo-random templates
-    while out.len() < n {
+    // 9. <textarea> text: escaped on both paths (tachys 7006223 / 01b809d, macro fix-c18-5)
+    for t in ["&lt;b&gt;", "</textarea><img src=x>", "\nfoo", "\n", "a & b < c > d", ""] {
+        out.push(shape_of(vec![el("div", vec![], vec![el("textarea", vec![], vec![tx(t)])])], &mut g.r));
+    }
+    out.push(shape_of(vec![el("div", vec![], vec![el("textarea", vec![idp("t")], vec![tx("\n"), tx("&amp;")])])], &mut g.r));
+    out.push(shape_of(vec![el("div", vec![], vec![el("textarea", vec![dynp()], vec![tx("x < y")])])], &mut g.r));
+    out.push(shape_of(vec![el("textarea", vec![], vec![tx("root & static")])], &mut g.r));
+    // 6. `n_random` pseudo-random templates, from their own generator state: adding systematic shapes (append
+    // them AFTER this block) never changes an existing shape or its index, so the corpus stays valid
+    let mut g_sys = std::mem::replace(&mut g, Gen { r: Sm(0xC18_6) });
+    let first_random = out.len();
+    while out.len() < first_random + n_random {
         let mode = if g.r.chance(1, 4) { Mode::Static } else { Mode::Mixed };
         let nroots = if g.r.chance(1, 5) { 2 + g.r.below(2) } else { 1 };
         let mut roots = vec![];
@@ -1124,6 +1198,24 @@ pub fn shapes(n: usize) -> Vec<Shape> {
         }
         out.push(shape_of(roots, &mut g.r));
     }
-    out.truncate(n.max(1));
+    // 10. self-closing syntax of non-void / custom / SVG elements in static and dynamic subtrees
+    // (`self_closed_syntax`: tag.len() + attrs.len() odd => written `<tag …/>`), literal attribute kinds,
+    // white-space-only text on both paths
+    let g = &mut g_sys;
+    let idp = |v: &str| TAttr::Plain(false, "id".into(), v.into());
+    let dynp = || TAttr::Plain(true, "title".into(), String::new());
+    let cls = |v: &str| TAttr::Cls(false, v.into());
+    for attrs in [vec![idp("s")], vec![dynp()]] {
+        // span+1 attr (odd): `<span class="icon"/>`; x-foo+2; circle+1; rect+1; b+0 is even: `<b></b>`
+        out.push(shape_of(vec![el("div", vec![], vec![el("p", attrs.clone(), vec![el("span", vec![cls("icon")], vec![]), tx("text"), el("b", vec![], vec![]), tx("more")])])], &mut g.r));
+        out.push(shape_of(vec![el("div", vec![], vec![el("section", attrs.clone(), vec![el("x-foo", vec![idp("c"), TAttr::Plain(false, "foo".into(), "v".into())], vec![]), el("p", vec![], vec![tx("after")]), el("div", vec![], vec![]), tx("tail")])])], &mut g.r));
+        out.push(shape_of(vec![el("div", vec![], vec![el("p", attrs.clone(), vec![el("svg", vec![], vec![el("circle", vec![TAttr::Plain(false, "r".into(), "1".into())], vec![]), el("rect", vec![TAttr::Plain(false, "x".into(), "2".into())], vec![]), el("g", vec![], vec![])]), tx("t")])])], &mut g.r));
+        // literal attribute kinds
+        out.push(shape_of(vec![el("div", vec![], vec![el("p", attrs.clone(), vec![el("input", vec![TAttr::LitBool("disabled".into(), false), TAttr::LitBool("hidden".into(), true), TAttr::LitVal("tabindex".into(), "2".into())], vec![]), el("span", vec![TAttr::LitVal("data-k".into(), "1.5".into()), TAttr::LitVal("title".into(), "'<'".into()), TAttr::LitBool("inert".into(), false)], vec![tx("x")])])])], &mut g.r));
+        // white-space-only text
+        out.push(shape_of(vec![el("div", vec![], vec![el("p", attrs.clone(), vec![tx("  "), el("b", vec![], vec![tx("\t")]), tx("\u{a0}"), el("i", vec![], vec![tx(" \n ")])]), el("pre", attrs.clone(), vec![tx("  a\n\n  b"), el("b", vec![], vec![tx("\n\n")]), tx("\u{a0}\u{a0}")])])], &mut g.r));
+    }
+    out.push(shape_of(vec![el("span", vec![cls("root-self-closed")], vec![]), tx("after")], &mut g.r));
+    out.push(shape_of(vec![el("pre", vec![], vec![tx("    "), Tmpl::Block(String::new())])], &mut g.r));
     out
 }
